@@ -170,9 +170,38 @@ func (c *ColAuto) Infer(t ColumnType) error {
 }
 
 var (
-	_ Column    = &ColAuto{}
-	_ Inferable = &ColAuto{}
+	_ Column       = &ColAuto{}
+	_ Inferable    = &ColAuto{}
+	_ Preparable   = &ColAuto{}
+	_ StateEncoder = &ColAuto{}
+	_ StateDecoder = &ColAuto{}
 )
+
+// Prepare forwards to the inferred column, e.g. LowCardinality or Enum.
+func (c ColAuto) Prepare() error {
+	if v, ok := c.Data.(Preparable); ok {
+		return v.Prepare()
+	}
+	return nil
+}
+
+// EncodeState forwards to the inferred column, e.g. LowCardinality.
+func (c ColAuto) EncodeState(b *Buffer) {
+	if v, ok := c.Data.(StateEncoder); ok {
+		v.EncodeState(b)
+	}
+}
+
+// DecodeState forwards to the inferred column, e.g. LowCardinality.
+//
+// Without it a ColAuto bound as result column would read the state of
+// such column as its data.
+func (c ColAuto) DecodeState(r *Reader) error {
+	if v, ok := c.Data.(StateDecoder); ok {
+		return v.DecodeState(r)
+	}
+	return nil
+}
 
 func (c ColAuto) Type() ColumnType {
 	return c.DataType
